@@ -268,7 +268,9 @@ class Gen:
             return ("lit", ("map", pairs)), what, 1
         if k == "pairs":
             return ("lit", ("list", tuple(("list", (("int", i), ("str", r.choice("xyz")))) for i in range(n)))), None, 2
-        return ("lit", ("str", "".join(r.choice("abc") for _ in range(n)))), None, 1
+        # (a character is a code point: combining marks, astral characters and line breaks are elements like any other)
+        alphabet = "abc" if r.random() < 0.7 else ["a", "e\u0301", "\u0301", "b", "\u05d1\u05b0", "\U0001f600", "o\u0308\u0304", "\n", "\u200d", "c"]
+        return ("lit", ("str", "".join(r.choice(alphabet) for _ in range(n)))), None, 1
 
     def loop_body(self, depth, loopvars, in_fn, acc):
         """statements of a loop body; plants break/continue/return at random positions"""
